@@ -30,6 +30,18 @@ def transform(path):
     if not pkg_simsync:
         # only the plain import of the standard package
         src = re.sub(r'^(\s*)"sync"\s*$', r"\1sync " + HS, src, flags=re.M)
+    # fmt -> vfmt (no sync.Pool; see sim/vfmt)
+    if not re.search(r"^package vfmt\b", src, re.M):
+        n = 0
+        for fn in ("Sprintf", "Errorf", "Sprint", "Fprintf"):
+            src, k = re.subn(r"\bfmt\.%s\(" % fn, "vfmt.%s(" % fn, src)
+            n += k
+        src, k = re.subn(r"\bfmt\.Stringer\b", "vfmt.Stringer", src)
+        n += k
+        if n:
+            if not re.search(r"\bfmt\.", src):
+                src = re.sub(r'^(\s*)"fmt"\s*$', "", src, count=1, flags=re.M)
+            src = re.sub(r"^(package \w+.*)$", r'\1\nimport vfmt "github.com/elementsproject/peerswap/verifsim/vfmt"', src, count=1, flags=re.M)
     out = []
     lines = src.split("\n")
     for i, ln in enumerate(lines):
